@@ -365,7 +365,8 @@ def judge_api(ctx, s, impl):
         if len(w) == 3 and w[0] in ("Int", "Real"):
             if want == "reject":
                 cls = "leading-dot" if re.match(r"^-?\.\d+$", s) else "bare-minus" if s == "-" else "other"
-                violation(ctx, "api:accepts-malformed:" + cls, "%s: mkConst(%r) yields the %s constant %s although the text is not a well-formed literal" %
+                lead0 = RE_FRAC.match(s) and (re.match(r"^-?0\d", s) or re.search(r"/0\d", s))
+                violation(ctx, "api:fraction-leading-zero" if lead0 else "api:accepts-malformed:" + cls, "%s: mkConst(%r) yields the %s constant %s although the text is not a well-formed literal" %
                               (logic, s, w[0], w[1]), dict(literal=s, impl=impl, how=how))
                 continue
             try:
